@@ -109,16 +109,16 @@ Proof.
   unfold sec_hdr, Nlen, u8, u16, u32. rewrite !app_length, !enc_le_length. lia.
 Qed.
 
-Theorem buf_size_single compress fp o sizes inp bs :
-  bw_write_z compress fp o sizes inp = Ok bs -> opts_ok o ->
-  exists ids outs sum data zooms ubuf nz a b c d,
+Theorem buf_size_single_c compress c fp o sizes inp bs :
+  bw_write_zc compress c fp o sizes inp = Ok bs -> opts_ok o ->
+  exists ids outs sum data zooms ubuf nz a1 a2 a3 a4,
     bw_collect fp o sizes inp = Ok (ids, outs, sum, data)
     /\ bw_zoom_levels fp o outs (zoom_sizes_single o) = Ok zooms
-    /\ has_at bs 0 (header_bytes BIGWIG_MAGIC nz a b c 0 0 0 d ubuf)
-    /\ blocks_bound (o_compress o) ubuf (data ++ flat_map zl_secs zooms)
-    /\ (ubuf = 0 <-> o_compress o = false).
+    /\ has_at bs 0 (header_bytes BIGWIG_MAGIC nz a1 a2 a3 0 0 0 a4 ubuf)
+    /\ blocks_bound c ubuf (data ++ flat_map zl_secs zooms)
+    /\ (ubuf = 0 <-> c = false).
 Proof.
-  intros H Hopts. unfold bw_write_z in H.
+  intros H Hopts. unfold bw_write_zc in H.
   destruct (bw_collect fp o sizes inp) as [[[[ids outs] sum] data]| | |] eqn:Hcol; cbn [rbind] in H; try discriminate.
   destruct (bw_zoom_levels fp o outs (zoom_sizes_single o)) as [zooms| | |] eqn:Hz; cbn [rbind] in H; try discriminate.
   destruct (assemble_z_header _ _ _ _ _ _ _ _ _ _ _ _ _ _ H) as (ct & ix & lv & zb & zh & zu & Hzp & _ & _ & Hat).
@@ -128,24 +128,24 @@ Proof.
     change (Nlen bw_pre) with 352. unfold Nlen. lia. }
   cbv beta in Hzp. destruct (write_zooms_loop o _ _ _ None 0) as [[b0 h0]| | |]; cbn [rbind] in Hzp; try discriminate.
   apply Ok_inj in Hzp. inversion Hzp; subst zb zh zu; clear Hzp.
-  do 5 eexists. exists (N.max (ubuf_of (o_compress o) data) (ubuf_of (o_compress o) (flat_map zl_secs zooms))).
+  do 5 eexists. exists (N.max (ubuf_of c data) (ubuf_of c (flat_map zl_secs zooms))).
   do 5 eexists. split; [reflexivity|]. split; [exact Hz|]. split; [exact Hat|]. split; [apply ubuf_of_bound|].
-  destruct (o_compress o) eqn:Ec; unfold ubuf_of.
+  destruct c eqn:Ec; unfold ubuf_of.
   - split; [|discriminate]. intros E0. exfalso.
     destruct (data_first_section fp o sizes inp ids outs sum data Hcol Hopts) as (s & Hs & Hl).
     pose proof (max_len_ge data s Hs). lia.
   - split; [reflexivity|]. intros _. reflexivity.
 Qed.
 
-Theorem buf_size_multipass compress fp o sizes inp bs :
-  bw_write_multipass_z compress fp o sizes inp = Ok bs -> opts_ok o ->
-  exists ids outs sum data zooms ubuf nz a b c d,
+Theorem buf_size_multipass_c compress c fp o sizes inp bs :
+  bw_write_multipass_zc compress c fp o sizes inp = Ok bs -> opts_ok o ->
+  exists ids outs sum data zooms ubuf nz a1 a2 a3 a4,
     bw_collect fp o sizes inp = Ok (ids, outs, sum, data)
-    /\ has_at bs 0 (header_bytes BIGWIG_MAGIC nz a b c 0 0 0 d ubuf)
-    /\ blocks_bound (o_compress o) ubuf (data ++ flat_map zl_secs zooms)   (* zooms: the levels that were written *)
-    /\ (ubuf = 0 <-> o_compress o = false).
+    /\ has_at bs 0 (header_bytes BIGWIG_MAGIC nz a1 a2 a3 0 0 0 a4 ubuf)
+    /\ blocks_bound c ubuf (data ++ flat_map zl_secs zooms)   (* zooms: the levels that were written *)
+    /\ (ubuf = 0 <-> c = false).
 Proof.
-  intros H Hopts. unfold bw_write_multipass_z in H.
+  intros H Hopts. unfold bw_write_multipass_zc in H.
   destruct (bw_collect fp o sizes inp) as [[[[ids outs] sum] data]| | |] eqn:Hcol; cbn [rbind] in H; try discriminate.
   destruct (assemble_z_header _ _ _ _ _ _ _ _ _ _ _ _ _ _ H) as (ct & ix & lv & zb & zh & zu & Hzp & _ & _ & Hat).
   { intros ds zp zb zh zu E. cbv beta zeta in E.
@@ -159,38 +159,61 @@ Proof.
   destruct (bw_zoom_levels fp o outs _) as [zooms| | |] eqn:Hz; cbn [rbind] in Hzp; try discriminate.
   destruct (write_zooms_two_pass o _ _) as [[b0 h0]| | |]; cbn [rbind] in Hzp; try discriminate.
   apply Ok_inj in Hzp. inversion Hzp; subst zb zh zu; clear Hzp.
-  do 4 eexists. exists zooms, (N.max (ubuf_of (o_compress o) data) (ubuf_of (o_compress o) (flat_map zl_secs zooms))).
+  do 4 eexists. exists zooms, (N.max (ubuf_of c data) (ubuf_of c (flat_map zl_secs zooms))).
   do 5 eexists. split; [reflexivity|]. split; [exact Hat|]. split; [apply ubuf_of_bound|].
-  destruct (o_compress o) eqn:Ec; unfold ubuf_of.
+  destruct c eqn:Ec; unfold ubuf_of.
   - split; [|discriminate]. intros E0. exfalso.
     destruct (data_first_section fp o sizes inp ids outs sum data Hcol Hopts) as (s & Hs & Hl).
     pose proof (max_len_ge data s Hs). lia.
   - split; [reflexivity|]. intros _. reflexivity.
 Qed.
 
+Theorem buf_size_single compress fp o sizes inp bs :
+  bw_write_z compress fp o sizes inp = Ok bs -> opts_ok o ->
+  exists ids outs sum data zooms ubuf nz a1 a2 a3 a4,
+    bw_collect fp o sizes inp = Ok (ids, outs, sum, data)
+    /\ bw_zoom_levels fp o outs (zoom_sizes_single o) = Ok zooms
+    /\ has_at bs 0 (header_bytes BIGWIG_MAGIC nz a1 a2 a3 0 0 0 a4 ubuf)
+    /\ blocks_bound (o_compress o) ubuf (data ++ flat_map zl_secs zooms)
+    /\ (ubuf = 0 <-> o_compress o = false).
+Proof. exact (buf_size_single_c compress (o_compress o) fp o sizes inp bs). Qed.
+
+Theorem buf_size_multipass compress fp o sizes inp bs :
+  bw_write_multipass_z compress fp o sizes inp = Ok bs -> opts_ok o ->
+  exists ids outs sum data zooms ubuf nz a1 a2 a3 a4,
+    bw_collect fp o sizes inp = Ok (ids, outs, sum, data)
+    /\ has_at bs 0 (header_bytes BIGWIG_MAGIC nz a1 a2 a3 0 0 0 a4 ubuf)
+    /\ blocks_bound (o_compress o) ubuf (data ++ flat_map zl_secs zooms)
+    /\ (ubuf = 0 <-> o_compress o = false).
+Proof. exact (buf_size_multipass_c compress (o_compress o) fp o sizes inp bs). Qed.
+
 (* ---------- with compression off the parametric model is the plain one ---------- *)
 Lemma map_id_ext {X} (f : X -> X) l : (forall x, f x = x) -> map f l = l.
 Proof. intros H. induction l as [|x l IH]; cbn [map]; [reflexivity|]. now rewrite H, IH. Qed.
 
-Theorem bw_write_z_uncompressed compress fp o sizes inp : o_compress o = false ->
-  bw_write_z compress fp o sizes inp = bw_write fp o sizes inp
-  /\ bw_write_multipass_z compress fp o sizes inp = bw_write_multipass fp o sizes inp.
+Theorem bw_write_zc_false compress fp o sizes inp :
+  bw_write_zc compress false fp o sizes inp = bw_write fp o sizes inp
+  /\ bw_write_multipass_zc compress false fp o sizes inp = bw_write_multipass fp o sizes inp.
 Proof.
-  intros Hc.
   assert (Hz : forall l, map (zsec compress false) l = l) by (intros l; apply map_id_ext; reflexivity).
   assert (Hzl : forall l, map (zlevel compress false) l = l).
   { intros l. apply map_id_ext. intros [r s]. unfold zlevel. cbn [zl_res zl_secs]. now rewrite Hz. }
   split.
-  - unfold bw_write_z, bw_write. destruct (bw_collect fp o sizes inp) as [[[[ids outs] sum] data]| | |]; cbn [rbind]; try reflexivity.
-    rewrite Hc. unfold bw_zoom_levels. destruct (mapM _ (zoom_sizes_single o)) as [zooms| | |]; cbn [rbind]; try reflexivity.
+  - unfold bw_write_zc, bw_write. destruct (bw_collect fp o sizes inp) as [[[[ids outs] sum] data]| | |]; cbn [rbind]; try reflexivity.
+    unfold bw_zoom_levels. destruct (mapM _ (zoom_sizes_single o)) as [zooms| | |]; cbn [rbind]; try reflexivity.
     rewrite Hz, Hzl. unfold assemble_z, assemble, ubuf_of. cbv zeta.
     destruct (chrom_tree_bytes sizes ids); cbn [rbind]; try reflexivity.
     destruct (write_index _ _ _ _) as [[ix lv]| | |]; cbn [rbind]; try reflexivity.
     destruct (write_zooms_loop _ _ _ _ _ _) as [[zb zh]| | |]; cbn [rbind]; reflexivity.
-  - unfold bw_write_multipass_z, bw_write_multipass. destruct (bw_collect fp o sizes inp) as [[[[ids outs] sum] data]| | |]; cbn [rbind]; try reflexivity.
-    rewrite Hc, Hz. unfold assemble_z, assemble, ubuf_of. cbv zeta.
+  - unfold bw_write_multipass_zc, bw_write_multipass. destruct (bw_collect fp o sizes inp) as [[[[ids outs] sum] data]| | |]; cbn [rbind]; try reflexivity.
+    rewrite Hz. unfold assemble_z, assemble, ubuf_of. cbv zeta.
     destruct (chrom_tree_bytes sizes ids); cbn [rbind]; try reflexivity.
     destruct (write_index _ _ _ _) as [[ix lv]| | |]; cbn [rbind]; try reflexivity.
     unfold bw_zoom_levels. destruct (mapM _ _) as [zooms| | |]; cbn [rbind]; try reflexivity.
     rewrite Hzl. destruct (write_zooms_two_pass _ _ _) as [[zb zh]| | |]; cbn [rbind]; reflexivity.
 Qed.
+
+Theorem bw_write_z_uncompressed compress fp o sizes inp : o_compress o = false ->
+  bw_write_z compress fp o sizes inp = bw_write fp o sizes inp
+  /\ bw_write_multipass_z compress fp o sizes inp = bw_write_multipass fp o sizes inp.
+Proof. intros Hc. unfold bw_write_z, bw_write_multipass_z. rewrite Hc. apply bw_write_zc_false. Qed.
